@@ -408,6 +408,31 @@ theorem C15_lines_roundtrip_binary (c : Codec) (fs : FS) (p : Str) (ls : List By
   refine ⟨h.1, ?_, h.2.2⟩
   rw [h.2.1]; cases ls <;> rfl
 
+/-- **C15 (lines, binary round trip: the condition is exact).**  Under the hypotheses of
+`C15_lines_roundtrip_binary`, `load_lines` returns the lines **iff** every line satisfies `lineOk`. -/
+theorem C15_lines_roundtrip_binary_iff (c : Codec) (fs : FS) (p : Str) (ls : List Bytes) (m eol tag rm : Str) (e : Bytes)
+    (hm : SaveMode m) (hpath : textLayer m eol = false) (hf : Fresh fs p m) (hbom : c.bom = [])
+    (heol : c.enc eol = some e) (hne : e ≠ []) (hrm : (rm.contains 'b' || !isStdEol eol) = true) :
+    loadLines c (saveFile c fs p (.lines (ls.map Line.bytes)) m eol tag).1 p rm eol = .ok (ls.map Loaded.bytes)
+      ↔ ∀ l ∈ ls, lineOk e l = true := by
+  constructor
+  · intro h
+    have hdisk : (saveFile c fs p (.lines (ls.map Line.bytes)) m eol tag).1 p = some (unlinesB e ls) := by
+      rw [files2_saveFile_lines_manual c fs p _ ls m eol tag e hm hpath (files2_linesConv_bytes c ls) heol,
+        startContent_fresh hf, hbom]
+      simp [FS.write]
+    rw [files2_loadLines_split c _ p rm eol _ e hrm heol hne hdisk] at h
+    have h' := congrArg (List.map (fun v => match v with | Loaded.bytes b => b | Loaded.str x => x)) (Except.ok.inj h)
+    simp only [List.map_map] at h'
+    have hid : ∀ xs : List Bytes, List.map ((fun v => match v with | Loaded.bytes b => b | Loaded.str x => x) ∘ Loaded.bytes) xs = xs := by
+      intro xs; induction xs with
+      | nil => rfl
+      | cons x xs ih => simp only [List.map_cons, Function.comp, ih]
+    rw [hid, hid] at h'
+    exact (files2_dropLastEmpty_split_iff e hne ls).mp h'
+  · intro hok
+    exact (C15_lines_roundtrip_binary c fs p ls m eol tag rm e hm hpath hf hbom heol hne hok hrm).2.2
+
 /-- **C15 (lines, binary round trip, standard EOL).**  LF, CRLF, CR under an ASCII-compatible codec
 without signature: it is enough that no line contains the first byte of the EOL (`'\n'` for LF,
 `'\r'` for CR and CRLF). -/
